@@ -431,6 +431,11 @@ def cb_prop(s, a, param):
 def cb_m(s, a):
     LOG.append(("method", ast.unparse(a)))
     return s.MetaData({"cb": "method"}), a
+import functools
+def _traced(f):
+    @functools.wraps(f)
+    def w(*a, **k): return f(*a, **k)
+    return w
 import pathlib
 def cb_m_path(s, a):
     # metadata that holds something that is no python literal
@@ -454,6 +459,13 @@ class Jet:
     def pt(self) -> float: ...
     @func_adl_callback(cb_m_path)
     def eta(self) -> float: ...
+    # the callback registered on a wrapper (a cache, any functools.wraps decorator) around the method
+    @func_adl_callback(cb_m)
+    @functools.lru_cache(maxsize=None)
+    def mass(self, scale: float = 1.0) -> float: ...
+    @func_adl_callback(cb_m)
+    @_traced
+    def phi(self) -> float: ...
 # a model collection declaring an operator of its own, with its own parameter name
 class JetColl(Iterable[T]):
     def Where(self, test) -> "JetColl[T]": ...
@@ -479,6 +491,8 @@ def q_prop_types(ds): return ds.Select("lambda e: e.djet().attr[float, 'n'](1)")
 # non-literal metadata coming out of a nested lambda
 def q_md_nested(ds): return ds.Select("lambda e: e.jets().Select(lambda j: j.eta())")
 def q_md_nested2(ds): return ds.Select("lambda e: e.jets().Select(lambda j: e.jets().Where(lambda k: k.eta() > j.eta()).Count())")
+def q_wrapped_method(ds): return ds.Select("lambda e: e.jets().Select(lambda j: j.mass())")
+def q_wrapped_method2(ds): return ds.Select("lambda e: e.jets().Where(lambda j: j.phi() > 1).Count()")
 def q_own_kw(ds): return ds.Select("lambda e: e.jets().Where(test=lambda j: j.pt() > 30).Count()")
 '''
 
@@ -497,6 +511,8 @@ def directed(ctx):
         "q_func_as_value": ([("method",)], ["method"], "j.pt()", None),
         "q_prop_types": ([("prop",)], ["prop"], "attr(1)", "[float"),
         "q_md_nested": ([("method",)], ["method"], "j.eta()", None),
+        "q_wrapped_method": ([("method",)], ["method"], "j.mass(1.0)", None),
+        "q_wrapped_method2": ([("method",)], ["method"], "j.phi() > 1", None),
         "q_md_nested2": ([("method",), ("method",)], ["method", "method"], "k.eta() > j.eta()", None),
     }
     for name, (calls, mds, must_have, must_not_have) in want.items():
